@@ -31,6 +31,7 @@ pub fn run_case(case: &EnumCase, report: &mut Report, property: &str) -> Option<
             return None;
         }
     };
+    drive::reset_budget();
     if let Some(limit) = case.limit {
         return run_limited(case, &ranges, &cfg, limit, report);
     }
@@ -125,6 +126,7 @@ fn run_limited(case: &EnumCase, ranges: &Vec<espada::hand_range::HandRange>, cfg
     let mut monitor = EnumMonitor::new(cfg);
     let mut seen: std::collections::HashSet<(u64, u64)> = std::collections::HashSet::new();
     let mut duplicates = 0u64;
+    // the product is beyond any considered-deals bound: the cycle detector of the guard (drive.rs) watches the odometer state
     let outcome = catch(|| {
         for sd in drive::evaluator(cfg, ranges, None) {
             let v = monitor.observe(&sd);
@@ -143,7 +145,11 @@ fn run_limited(case: &EnumCase, ranges: &Vec<espada::hand_range::HandRange>, cfg
     report.evaluations += 1;
     report.count("limited_runs_on_products_beyond_2_pow_32", 1);
     if let Err(p) = &outcome {
-        report.violate(format!("{}:panic@{}", sig, crate::util::panic_site(p)), format!("{}: iterating panicked after {} showdowns: {} ({})", case.label, monitor.yielded, p, cfg_short(cfg)), case_json.clone());
+        if p.contains(BOUND_PANIC) {
+            report.violate(format!("{}:non-termination", sig), format!("{}: after {} showdowns the enumeration stopped advancing: {} ({})", case.label, monitor.yielded, p, cfg_short(cfg)), case_json.clone());
+        } else {
+            report.violate(format!("{}:panic@{}", sig, crate::util::panic_site(p)), format!("{}: iterating panicked after {} showdowns: {} ({})", case.label, monitor.yielded, p, cfg_short(cfg)), case_json.clone());
+        }
     }
     if let Some((kind, text)) = &monitor.first_problem {
         report.violate(format!("{}:{}", sig, kind), format!("{}: {} ({} such showdowns; {})", case.label, text, monitor.problems, cfg_short(cfg)), case_json.clone());
